@@ -223,19 +223,28 @@ class AtomicFile(object):
                             backupFilename = os.path.join(self.backupDir,
                                                           backupFilename)
                         shutil.copy(self.filename, backupFilename)
-                # We use shutil.move here instead of os.rename because
+                # We use os.replace here instead of os.rename because
                 # the latter doesn't work on Windows when self.filename
-                # (the target) already exists.  shutil.move handles those
-                # intricacies for us.
+                # (the target) already exists.
 
                 # This raises IOError if we can't write to the file.  Since
                 # in *nix, it only takes write perms to the *directory* to
-                # rename a file (and shutil.move will use os.rename if
-                # possible), we first check if we have the write permission
-                # and only then do we write.
+                # rename a file, we first check if we have the write
+                # permission and only then do we write.
                 fd = open(self.filename, 'a')
                 fd.close()
-                shutil.move(self.tempFilename, self.filename)
+                try:
+                    os.replace(self.tempFilename, self.filename)
+                except OSError:
+                    # The temporary file is on another file system (tmpDir).
+                    # shutil.move would then copy over the target in place,
+                    # and dying in the middle of that copy leaves a truncated
+                    # target.  Copy next to the target first, so that the
+                    # target is still replaced by a single rename.
+                    sibling = '%s.%s' % (self.filename, mktemp())
+                    shutil.copy2(self.tempFilename, sibling)
+                    os.replace(sibling, self.filename)
+                    os.remove(self.tempFilename)
 
         else:
             raise ValueError('AtomicFile.close called after rollback.')
